@@ -1633,9 +1633,12 @@ def parse_equation_ellipses(eq, shapes, tuples=False):
             output = out_ellipses_indices + find_output_str(lhs)
 
     else:
-        # no ellipsis, just check for output
+        # no ellipsis (on the inputs), just check for output
         if rhs:
             output = rhs[0]
+            if check_ellipsis(output):
+                # an ellipsis only in the output stands for zero dimensions
+                output = output.replace("...", "")
         else:
             output = find_output_str(lhs)
 
